@@ -15,7 +15,16 @@ in order (find_keys order) on normal form, result meta and key.
 Class / enum-member resolution phase (harness/clsres.py): generated package trees (nested classes, Flag enums, shadowing
 submodules, missing dependencies), each imported in a fresh interpreter; the real deserialize_class / serialize_enum /
 deserialize_enum against the Lean model of the resolution (`CLSRES`); monitor: a class whose holder path no module
-shadows, and every enum value, comes back from its serialisation."""
+shadows, and every enum value, comes back from its serialisation.
+Task types include one with a non-ASCII identifier (ptasks.Étude, also in ptasks2, also as nested-task parameter) and one
+cached by a third format whose KEY_PREFIX has a hyphen, a space and a non-ASCII letter (ptasks.Archive / DashCache): every
+saved entry must be listed by the storage and returned by cached_tasks exactly once.
+Parameters include instances of scalar subclasses (Celsius(float), str / int subclasses, numpy.float64 / numpy.str_) and
+str-subclass dict keys: the serialiser writes them as the base scalar / plain str, so what comes back is the ==-equal task
+holding the base values (the Lean model is given the base values; the equality with the original is monitor-only).
+Relative storage directories (monitor-only, in a child interpreter, `rel` in the case): `Lab(storage='relative/dir')` or a
+relative Path, entries saved, then os.chdir() to a directory where a decoy directory of the same relative name holds a
+foreign entry: is_cached / find_keys / cached_tasks / run_tasks must still see exactly the original store."""
 import collections
 import hashlib
 import json
@@ -29,6 +38,9 @@ from datetime import datetime, timedelta
 import clsres
 import paramgen as pg
 import paramrun as pr
+
+REL_PATHS = ['store', 'rel/dir', './store', 'lab cache/é']
+
 
 RULE = ('distinct (store, request) pairs in which the store holds at least one entry with a nested task or a list/dict below the top level, '
         'and at least one entry that the request must NOT return although its key passes the startswith test or its qualname equals a requested '
@@ -71,6 +83,11 @@ def gen_store(rnd, depth, size):
     return entries
 
 
+def gen_rel(rnd):
+    """how a store is opened through a RELATIVE path: [path, given as pathlib.Path?, decoy directory at the new cwd?]"""
+    return dict(path=rnd.choice(REL_PATHS), as_path=rnd.random() < 0.5, decoy=rnd.random() < 0.7)
+
+
 def gen_requests(rnd):
     reqs = [[('ptasks', 'Exp')], [('ptasks', 'Experiment'), ('ptasks', 'Exp')], list(ALL_TYPES)]
     k = rnd.randrange(1, 5)
@@ -85,7 +102,7 @@ def has_flagged(spec):
     t = spec[0]
     if t in ('dict', 'fdict'):
         for k, v in spec[1]:
-            if k[0] == 'k' and k[1] in ('_is_task', '_is_enum') and (v[0] in ('task', 'enum') or bool(pg.build(v))):
+            if k[0] != 'x' and pg.key_str(k) in ('_is_task', '_is_enum') and (v[0] in ('task', 'enum') or bool(pg.build(v))):
                 return True
     return any(has_flagged(c) for c in pg.children(spec))
 
@@ -120,16 +137,57 @@ def parse_ctasks(line):
     return out
 
 
-def run_store(case, want_model=True):
+def start_rel_worker(cases):
+    """store cases with a relative storage directory run in a child interpreter (they change the working directory)"""
+    import subprocess
+    import sys
+    tmp = tempfile.mkdtemp(prefix='verif-c09w-')
+    inp, outp, log = (os.path.join(tmp, n) for n in ('in.json', 'out.json', 'log.txt'))
+    json.dump(cases, open(inp, 'w'))
+    repo = os.environ.get('VERIF_REPO', '/repo')
+    env = dict(os.environ, PYTHONPATH=pr.HERE + os.pathsep + repo)
+    lf = open(log, 'w')
+    p = subprocess.Popen([sys.executable, os.path.join(pr.HERE, 'paramworker.py'), '--relstore', inp, outp], stdout=lf, stderr=lf,
+                         stdin=subprocess.DEVNULL, start_new_session=True, env=env, cwd=tmp)
+    return dict(tmp=tmp, outp=outp, log=log, lf=lf, p=p)
+
+
+def finish_rel_worker(h, timeout=240):
+    """[(violations, facts)] per case"""
+    return [(v, collections.Counter(f)) for v, f in pr.finish_worker(h, timeout=timeout)]
+
+
+def run_store(case, want_model=True, in_child=False):
     """one store case through the real code (+ the model); returns (violations, disagreements, facts)"""
     import labtech
     import ptasks
     from labtech.types import ResultMeta, TaskResult
+    rel = case.get('rel')
+    if rel and not in_child:
+        (v, facts), = finish_rel_worker(start_rel_worker([case]))
+        return v, [], facts
     viol, dis = [], []
     facts = collections.Counter()
-    d = tempfile.mkdtemp(prefix='verif-c09-')
+    base = tempfile.mkdtemp(prefix='verif-c09-')
+    cwd0 = os.getcwd() if rel else None
     try:
-        lab = labtech.Lab(storage=d, runner_backend='serial')
+        if rel:
+            # <base>/work is the working directory while the store is filled, <base>/elsewhere afterwards
+            work, other = os.path.join(os.path.realpath(base), 'work'), os.path.join(os.path.realpath(base), 'elsewhere')
+            for w in (work, other):
+                os.makedirs(os.path.dirname(os.path.normpath(os.path.join(w, rel['path']))))
+            decoy_task = ptasks.Exp(p='decoy-entry-of-another-project')
+            if rel['decoy']:
+                decoy = labtech.Lab(storage=os.path.join(other, rel['path']), runner_backend='serial')
+                for t in (decoy_task, getattr(ptasks, 'Étude')(p=[decoy_task])):
+                    type(t)._lt.cache.save(decoy._storage, t, TaskResult(value='decoy', meta=ResultMeta(start=datetime(2020, 1, 1), duration=timedelta(seconds=9))))
+            os.chdir(work)
+            from pathlib import Path
+            lab = labtech.Lab(storage=Path(rel['path']) if rel['as_path'] else rel['path'], runner_backend='serial')
+            d = os.path.normpath(os.path.join(work, rel['path']))
+        else:
+            d = base
+            lab = labtech.Lab(storage=d, runner_backend='serial')
         by_key = {}
         for i, (spec, foreign, minute, dur) in enumerate(case['entries']):
             t = pg.build(spec)
@@ -146,10 +204,32 @@ def run_store(case, want_model=True):
                 continue
             # a later save under the same key overwrites
             by_key[t.cache_key] = dict(spec=spec, task=t, own=not (foreign and not null), cache_name=type(cache).__qualname__, rm=rm_token(meta),
-                                       value='stored-%d' % i, nf=pg.show(t))
+                                       value='stored-%d' % i, nf=pg.strip_marks(pg.show(t)))   # (what comes back holds the base scalars)
         keys_sorted = sorted(by_key)
-        if list(lab._storage.find_keys()) != keys_sorted:
-            viol.append(dict(what='storage lists other keys than the ones saved', replay=dict(kind='store', case=case)))
+        if rel:
+            # the program moves on to another working directory
+            tag = f"Lab(storage={'Path(' if rel['as_path'] else ''}{rel['path']!r}{')' if rel['as_path'] else ''}), entries saved, then os.chdir(): "
+            os.chdir(other)
+            facts['relative_storage_cases'] += 1
+            try:
+                lost = [k for k, e in sorted(by_key.items()) if not lab.is_cached(e['task'])]
+                if lost:
+                    viol.append(dict(what=tag + f'is_cached is False for {len(lost)} of the {len(by_key)} cached tasks (first: {lost[0]})', replay=dict(kind='store', case=case)))
+                if lab.is_cached(decoy_task):
+                    viol.append(dict(what=tag + 'is_cached is True for a task that only a directory of the same relative name under the NEW working directory holds',
+                                     replay=dict(kind='store', case=case)))
+            except BaseException as e:
+                viol.append(dict(what=tag + f'is_cached raised {type(e).__name__}: {e}'[:200], replay=dict(kind='store', case=case)))
+        try:
+            listed = list(lab._storage.find_keys())
+        except BaseException as e:
+            listed = None
+            viol.append(dict(what=f'listing the storage raised {type(e).__name__}: {e}'[:200], replay=dict(kind='store', case=case)))
+        if listed is not None and listed != keys_sorted:
+            cw, cl = collections.Counter(keys_sorted), collections.Counter(listed)
+            viol.append(dict(what='storage lists other keys than the ones saved: %d saved entries are not listed, %d listed keys were not saved or are repeated (first: %s)'
+                                  % (sum((cw - cl).values()), sum((cl - cw).values()), (sorted((cw - cl).elements()) + sorted((cl - cw).elements()))[0]),
+                             replay=dict(kind='store', case=case)))
         # the stored documents are what the model's serialiser says (type-exactly)
         lines = []
         for req in case['requests']:
@@ -190,12 +270,15 @@ def run_store(case, want_model=True):
         types = [pg.cls_of(m, q) for m, q in ALL_TYPES]
         try:
             got = lab.cached_tasks(types)
+            if rel:
+                # ... and so does running the ORIGINAL task objects after the change of directory
+                got = list(got) + [e['task'] for _, e in sorted(by_key.items()) if e['own']]
             # run_tasks keys its result dict by Python equality, which identifies e.g. Exp(p=1) and Exp(p=True)
             # (an observation, not a finding): such tasks are run in separate calls
             batches = [[]]
             for u in got:
                 for b in batches:
-                    if u not in b:
+                    if not any(pr.maybe_eq(u, x) for x in b):
                         b.append(u)
                         break
                 else:
@@ -231,15 +314,29 @@ def run_store(case, want_model=True):
         facts['entries'] += len(by_key)
         facts['foreign_entries'] += sum(1 for e in by_key.values() if not e['own'])
     finally:
-        shutil.rmtree(d, ignore_errors=True)
+        if rel:
+            os.chdir(cwd0)
+        shutil.rmtree(base, ignore_errors=True)
     return viol, dis, facts
+
+
+def run_store_safe(case, want_model=True):
+    """run_store; an exception out of building / saving / listing is a finding about the code under test"""
+    try:
+        return run_store(case, want_model=want_model)
+    except RuntimeError as e:
+        if str(e).startswith('parameter worker failed'):
+            raise
+        return [dict(what=f'building / saving the store raised {type(e).__name__}: {e}'[:200], replay=dict(kind='store', case=case))], [], collections.Counter()
+    except Exception as e:
+        return [dict(what=f'building / saving the store raised {type(e).__name__}: {e}'[:200], replay=dict(kind='store', case=case))], [], collections.Counter()
 
 
 def shrink_store(case, want):
     """drop entries / requests while the same alarm persists"""
     def bad(c):
         try:
-            v, _, _ = run_store(c, want_model=False)
+            v, _, _ = run_store_safe(c, want_model=False)
             return any(x['what'].startswith(want) for x in v)
         except Exception:
             return False
@@ -307,7 +404,7 @@ def run_overwrite(case):
         kw = dict(disable_progress=True, disable_top=True)
         lab = labtech.Lab(storage=d, runner_backend='serial', continue_on_failure=True)
         tasks = [pg.build(s) for s in case['specs']]
-        if len({t.cache_key for t in tasks}) != len(tasks) or any(a == b for i, a in enumerate(tasks) for b in tasks[:i]):
+        if len({t.cache_key for t in tasks}) != len(tasks) or any(pr.maybe_eq(a, b) for i, a in enumerate(tasks) for b in tasks[:i]):
             return viol, dis, facts   # Python-equal parameters (1 / True): run_tasks would merge them; not this scenario
         ptasks.OVERWRITE_FAIL.clear()
         res1 = lab.run_tasks(tasks, **kw)
@@ -342,7 +439,7 @@ def run_overwrite(case):
             t, _ = by_task_key[k]
             state = 'after a failed overwrite' if k in failing and k not in second else 'after an overwrite'
             facts['returned_after_failed_overwrite'] += int(k in failing and k not in second)
-            if not (u == t and pg.show(u) == pg.show(t)):
+            if not (u == t and pg.show(u) == pg.strip_marks(pg.show(t))):
                 viol.append(dict(what=f'task returned {state} is not equal to the cached one', replay=rp))
             if u not in loaded:
                 viol.append(dict(what=f'task returned by cached_tasks {state} cannot load its stored result', replay=rp))
@@ -574,7 +671,10 @@ def run(ctx):
                 return dict(infra_error=infra)
             return dict(evaluations=1, distinct_nontrivial=0, rule=RULE, samples=[], violations=v, disagreements=[],
                         distribution={}, assumptions=[], explanation='replay of the re-import scenario')
-        v, d, _ = run_store(rp['case'])
+        try:
+            v, d, _ = run_store_safe(rp['case'])
+        except RuntimeError as e:
+            return dict(infra_error=str(e))
         return dict(evaluations=len(rp['case']['requests']), distinct_nontrivial=0, rule=RULE, samples=[], violations=v, disagreements=d,
                     distribution={}, assumptions=[], explanation='replay of one store')
     for rec in repro.run_many(['D6']):
@@ -612,14 +712,22 @@ def run(ctx):
     evaluations = cr['evaluations']
     nontrivial = 0
     samples = []
+    # stores opened through a relative path, with a change of working directory: in child interpreters, meanwhile
+    rel_rnd = random.Random(ctx['seed'] * 7919 + 5)
+    rel_cases = []
+    for i in range(24 if ctx['tier'] == 'quick' else 200):
+        entries = [e for e in gen_store(rel_rnd, 3, rel_rnd.randrange(2, 9)) if not has_flagged(e[0])]
+        rel_cases.append(dict(entries=entries, requests=gen_requests(rel_rnd)[2:4], rel=gen_rel(rel_rnd)))
+    rel_workers = [start_rel_worker(rel_cases[i::2]) for i in range(2)]
     while True:
         for i in range(n_stores):
             entries = [e for e in gen_store(rnd, depth, rnd.randrange(5, 21)) if not has_flagged(e[0])]
+            if i == 0 and pg.numpy_probes():
+                # a store of the fixed constructor calls with numpy.float64 / numpy.str_ parameters (paramgen.numpy_probes)
+                entries = [[s, False, 10 * j, 1.5] for j, s in enumerate(pg.numpy_probes())]
+                dist['numpy_scalar_probe_entries'] = len(entries)
             case = dict(entries=entries, requests=gen_requests(rnd))
-            try:
-                v, d, facts = run_store(case)
-            except Exception as e:
-                v, d, facts = [dict(what=f'building / saving the store raised {type(e).__name__}: {e}'[:200], replay=dict(kind='store', case=case))], [], collections.Counter()
+            v, d, facts = run_store_safe(case)
             evaluations += facts['requests']
             nontrivial += facts['nontrivial']
             for k, x in facts.items():
@@ -652,6 +760,15 @@ def run(ctx):
             n_stores *= 3
             continue
         break
+    for w in rel_workers:
+        try:
+            for v, facts in finish_rel_worker(w):
+                viol += v
+                evaluations += facts['requests']
+                for k, x in facts.items():
+                    dist['relative_storage:' + k] += x
+        except RuntimeError as e:
+            return dict(infra_error=str(e))
     # shrink the first new alarms
     done = set()
     for v in viol:
@@ -684,6 +801,9 @@ def run(ctx):
         assumptions=['types are used without inheritance (isinstance = same class)',
                      'entries are written by BaseCache.save with a start time and a duration (as run_tasks always does)',
                      'NaN and lone surrogates are not generated',
+                     'stores opened through a relative path (with os.chdir between saving and listing) are checked by the monitors only, in a child interpreter; '
+                     'the Lean model of cached_tasks has no notion of a working directory',
+                     'instances of scalar subclasses / str-subclass dict keys are given to the Lean model as their base scalar / plain str',
                      'class resolution (CLSRES): import state is fresh (nothing of the package tree imported, no __init__ that binds a submodule '
                      'over a class name); class strings with an empty first component, enum name parts other than member names / plain ASCII '
                      'decimal numerals / letter words, Flag boundaries CONFORM and EJECT, negative flag values and multi-bit members with a bit '
